@@ -708,6 +708,10 @@ def det_prog(rng):
         return [("a.s", "\n".join(funcs[0] + main + [l for f in funcs[1:] for l in f]) + "\n")], "a.s"
     if rng.random() < 0.5 or nf == 0:
         return [("a.s", "\n".join(main + [l for f in funcs for l in f]) + "\n")], "a.s"
+    if rng.random() < 0.15:     # twin files: the same text under two names - identical diagnostics at identical offsets in two files
+        twin = rng.choice(["addi zero, a0, 1\n", " li t5, 3\n addi zero, t5, 2\n", "lw t0, 4(sp\n", " frob a0\n addi zero, zero, 0\n"])
+        return [("a.s", "\n".join(main) + "\n" + '.include "u1.s"\n.include "lib/u2.s"\n' + "\n".join(l for f in funcs for l in f) + "\n"),
+                ("u1.s", twin), ("lib/u2.s", twin)], "a.s"
     # included files: flat names, or the SAME file name in different directories
     names = ["f%d.s" % i for i in range(nf)] if rng.random() < 0.5 else ["d%d/util.s" % i for i in range(nf)]
     files = [("a.s", "\n".join(main) + "\n" + "".join('.include "%s"\n' % n for n in names))]
